@@ -502,6 +502,9 @@ impl Check for C12 {
         }
         out
     }
+    fn exhaustive_note(&self, tier: Tier) -> Option<String> {
+        Some(if tier == Tier::Thorough { "every (context, single mutator) pair".to_string() } else { "one third of the (context, single mutator) pairs".to_string() })
+    }
     fn shrink(&self, case: &Value) -> Vec<Value> {
         let Ok(c) = serde_json::from_value::<Case>(case.clone()) else { return vec![] };
         let mut out: Vec<Case> = vec![];
